@@ -536,6 +536,8 @@ class FileScanHelper:
             # the line being scanned, we rescan the tokens to present an updated
             # picture of the tokens.
             for next_token in actual_tokens:
+                if next_token.is_pragma:
+                    continue
                 POGGER.info("Processing tokens: $", next_token)
                 self.__plugins.next_token(fix_context, next_token, context_map)
 
@@ -594,6 +596,8 @@ class FileScanHelper:
             context_map[i] = report_context
 
         for next_token in actual_tokens:
+            if next_token.is_pragma:
+                continue
             POGGER.info("Processing token: $", next_token)
             self.__plugins.next_token(fix_context, next_token, context_map)
 
